@@ -152,7 +152,10 @@ def behaviour(labels, cap, i, wq=1, mult=None):
     text = " ; ".join(steps)
     if v6 and i % 6 == 4:
         text = re.sub(r"\bp2\b", "p3", text)
-    return "cap=%d et=%d batch=%d wq=%d v6=%d ; %s" % (cap, et, batch, wq, v6, text), names
+    # on IPv4, behaviours that open sessions from the engine's side give the peers' hosts in other spellings in two runs of
+    # five ("127.1" / "127.2", "localhost"): the session is still the one datagrams from that address belong to
+    sp = (i % 5 if i % 5 in (1, 2) else 0) if not v6 and re.search(r"\b(VIA|CONNECT)\b", text) else 0
+    return "cap=%d et=%d batch=%d wq=%d v6=%d sp=%d ; %s" % (cap, et, batch, wq, v6, sp, text), names
 
 
 def action_cover(g, rng, per_action, maxlen=12):
@@ -503,6 +506,17 @@ def run_cases(ck, lines, name):
     if len(execs) != len(lines):
         raise vf.Infra("drv_udp returned %d executions for %d cases" % (len(execs), len(lines)))
     for i, (start, evs) in enumerate(execs):
+        if any(e["e"] == "Lost" for e in evs) and not name.endswith("_again"):
+            # "one datagram per send reaches the session's peer": decided by the kernel's own answer (send succeeded, nothing
+            # arrived on loopback).  Re-run the single case; reported only when it repeats.
+            again, _ = run_cases(ck, [lines[i]], name + "_%d_again" % i)
+            if any(e["e"] == "Lost" for e in again[0][1]):
+                rp = ck.save_replay(name + "_lost_%d" % i, {"case.txt": lines[i] + "\n", "trace.ndjson": "\n".join(json.dumps(e) for e in evs) + "\n"})
+                ck.violation("a datagram the engine sent (send call successful) never reached the peer socket, twice in a row (%s)" % lines[i], rp)
+            else:
+                ck.note("execution %d: a sent datagram did not arrive within 5 s, not repeated by an immediate re-run: treated as load noise" % i)
+            execs[i] = (start, [] if any(e["e"] == "Lost" for e in again[0][1]) else again[0][1])
+            continue
         for e in evs:
             if e["e"] in ("Infra", "HarnessTimeout"):
                 raise vf.Infra("execution %d (%s): %s" % (i, lines[i], json.dumps(e)))
